@@ -3,26 +3,646 @@ import Proofs.Zerox
 import Proofs.Extrema
 /-!
 # Helper lemmas for C01 (the cycle table is an ordered, gap-free segmentation)
+
+Organisation: (1) the degenerate case (a missing kind of crossing forces an exception);
+(2) row assembly from the generated `rowSlices` and well-formedness of the assembled rows (`CpGood`);
+(3) direct analysis of `findFlankMidpoints`/`findZerox` (each midpoint lies between its two extrema);
+(4) `toNatList`, the chain `p₀ < t₀ < p₁ < …` obtained from `altFrom`; (5) the glue and the four theorems.
 -/
 namespace Bycycle
+
+/-! ## (1) the degenerate case -/
+
+
+theorem cp_extremaLoop_zero (sig : List Rat) (pick : List Rat → Option Nat) (cmp : Cmp)
+    (starts others : List Nat) : extremaLoop sig pick cmp starts 0 others = .ok [] := by
+  simp [extremaLoop, extremaLoop.go]
+
+theorem cp_len_le_one_of_other_nil_d (b : List Bool) (h : risingX b = []) : (decayingX b).length ≤ 1 := by
+  match hd : decayingX b with
+  | [] => simp
+  | [_] => simp
+  | d :: d' :: rest =>
+    have hs := decayingX_sorted b
+    rw [hd] at hs
+    have hlt : d < d' := by
+      rw [List.pairwise_cons] at hs
+      exact hs.1 d' (by simp)
+    obtain ⟨r, hr, _⟩ := crossings_alternate_dr b d d' (by simp [hd]) (by simp [hd]) hlt
+    simp [h] at hr
+
+theorem cp_len_le_one_of_other_nil_r (b : List Bool) (h : decayingX b = []) : (risingX b).length ≤ 1 := by
+  match hd : risingX b with
+  | [] => simp
+  | [_] => simp
+  | d :: d' :: rest =>
+    have hs := risingX_sorted b
+    rw [hd] at hs
+    have hlt : d < d' := by
+      rw [List.pairwise_cons] at hs
+      exact hs.1 d' (by simp)
+    obtain ⟨r, hr, _⟩ := crossings_alternate_rd b d d' (by simp [hd]) (by simp [hd]) hlt
+    simp [h] at hr
+
+theorem cp_riseXs_len (b : List Bool) (h : risingX b = [] ∨ decayingX b = []) : (riseXs b).length = 1 := by
+  unfold riseXs
+  show (if (risingX b).isEmpty then [b.length / 2] else risingX b).length = 1
+  rcases h with h | h
+  · simp [h]
+  · have := cp_len_le_one_of_other_nil_r b h
+    split
+    · simp
+    · rename_i hne
+      have : (risingX b).length ≠ 0 := by
+        intro h0; exact hne (by simpa using List.eq_nil_of_length_eq_zero h0)
+      omega
+
+theorem cp_decayXs_len (b : List Bool) (h : risingX b = [] ∨ decayingX b = []) : (decayXs b).length = 1 := by
+  unfold decayXs
+  show (if (decayingX b).isEmpty then [b.length / 2] else decayingX b).length = 1
+  rcases h with h | h
+  · have := cp_len_le_one_of_other_nil_d b h
+    split
+    · simp
+    · rename_i hne
+      have : (decayingX b).length ≠ 0 := by
+        intro h0; exact hne (by simpa using List.eq_nil_of_length_eq_zero h0)
+      omega
+  · simp [h]
+
+theorem cp_rawExtrema_degenerate (sig : List Rat) (b : List Bool) (h : risingX b = [] ∨ decayingX b = [])
+    (pk tr : List Nat) (hr : rawExtrema sig b = .ok (pk, tr)) : pk = [] ∨ tr = [] := by
+  unfold rawExtrema at hr
+  simp only [cp_riseXs_len b h, cp_decayXs_len b h, Nat.sub_self] at hr
+  split at hr
+  · simp only [cp_extremaLoop_zero] at hr
+    left
+    cases h2 : extremaLoop sig argminFirst Slots.scanRiseCmp (decayXs b) 1 (riseXs b) with
+    | error e => rw [h2] at hr; cases hr
+    | ok v => rw [h2] at hr; cases hr; rfl
+  · simp only [cp_extremaLoop_zero] at hr
+    right
+    cases h2 : extremaLoop sig argmaxFirst Slots.scanDecayCmp (riseXs b) 1 (decayXs b) with
+    | error e => rw [h2] at hr; cases hr
+    | ok v => rw [h2] at hr; cases hr; rfl
+
+theorem cp_unpadFilter_nil (lo hi : Cmp) (pad n : Nat) (bd : Int) : unpadFilter lo hi [] pad n bd = [] := rfl
+
+theorem cp_trimFirst_peak_nil (P T : List Int) (h : P = [] ∨ T = []) : ∃ e, trimFirst .peak P T = .error e := by
+  rcases h with h | h
+  · subst h; exact ⟨.indexError, rfl⟩
+  · subst h
+    cases P with
+    | nil => exact ⟨.indexError, rfl⟩
+    | cons p ps => exact ⟨.indexError, rfl⟩
+
+theorem cp_findExtrema_def (sig : List Rat) (pad : Nat) (b : List Bool) (bd : Int) (fe : FirstExt) :
+    findExtrema sig pad b bd fe =
+      (rawExtrema (List.replicate pad (0 : Rat) ++ sig ++ List.replicate pad 0) b >>= fun x =>
+        trimFirst fe (unpadFilter Slots.boundaryLoCmp Slots.boundaryHiCmp x.1 pad sig.length bd)
+          (unpadFilter Slots.boundaryLoCmpTroughs Slots.boundaryHiCmpTroughs x.2 pad sig.length bd)) := rfl
+
+theorem cp_findExtrema_degenerate (sig : List Rat) (pad : Nat) (b : List Bool) (bd : Int)
+    (h : risingX b = [] ∨ decayingX b = []) : ∃ e, findExtrema sig pad b bd .peak = .error e := by
+  rw [cp_findExtrema_def]
+  cases hr : rawExtrema (List.replicate pad (0 : Rat) ++ sig ++ List.replicate pad 0) b with
+  | error e => exact ⟨e, rfl⟩
+  | ok v =>
+    obtain ⟨pk, tr⟩ := v
+    have := cp_rawExtrema_degenerate _ b h pk tr hr
+    show ∃ e, trimFirst .peak _ _ = .error e
+    apply cp_trimFirst_peak_nil
+    rcases this with h | h
+    · left; subst h; rfl
+    · right; subst h; rfl
 
 /-- without a zero-crossing of each direction there is no table (the function raises). -/
 theorem computeCyclepoints_degenerate (sig : List Rat) (pad : Nat) (b : List Bool) (bd : Int)
     (h : risingX b = [] ∨ decayingX b = []) : ∃ e, computeCyclepoints sig pad b bd = .error e := by
-  sorry
+  obtain ⟨e, he⟩ := cp_findExtrema_degenerate sig pad b bd h
+  exact ⟨e, by unfold computeCyclepoints; rw [he]; rfl⟩
+
+
+/-! ## (2) row assembly -/
+
+theorem cp_sampleColumn_vals (p t r d : List Int) :
+    sampleColumn "sample_peak" p t r d = applySlice p 1 0 ∧
+    sampleColumn "sample_last_zerox_decay" p t r d = applySlice d 0 1 ∧
+    sampleColumn "sample_zerox_decay" p t r d = applySlice d 1 0 ∧
+    sampleColumn "sample_zerox_rise" p t r d = applySlice r 0 0 ∧
+    sampleColumn "sample_last_trough" p t r d = applySlice t 0 1 ∧
+    sampleColumn "sample_next_trough" p t r d = applySlice t 1 0 := by
+  refine ⟨?_, ?_, ?_, ?_, ?_, ?_⟩ <;> rfl
+
+theorem cp_applySlice_length (a : List Int) (f e : Nat) : (applySlice a f e).length = a.length - f - e := by
+  simp [applySlice]
+
+theorem cp_applySlice_getD (a : List Int) (f e i : Nat) (hi : i < a.length - f - e) :
+    (applySlice a f e).getD i 0 = a.getD (i + f) 0 := by
+  simp only [applySlice, List.getD_eq_getElem?_getD, List.getElem?_take, List.getElem?_drop, hi, if_true]
+  rw [Nat.add_comm]
+
+/-- row `i` of the table in terms of the four source arrays. -/
+def cpRowAt (P T R D : List Int) (i : Nat) : SampleRow :=
+  ⟨P.getD (i + 1) 0, D.getD i 0, D.getD (i + 1) 0, R.getD i 0, T.getD i 0, T.getD (i + 1) 0⟩
+
+theorem cp_assembleRows_eq (P T R D : List Int) (m : Nat) (hP : P.length = m) (hT : T.length = m)
+    (hD : D.length = m) (hR : R.length = m - 1) :
+    assembleRows P T R D = .ok ((List.range (m - 1)).map (cpRowAt P T R D)) := by
+  obtain ⟨h1, h2, h3, h4, h5, h6⟩ := cp_sampleColumn_vals P T R D
+  unfold assembleRows
+  simp only [h1, h2, h3, h4, h5, h6, cp_applySlice_length, hP, hT, hD, hR]
+  simp only [Nat.sub_zero]
+  split
+  case isFalse hc => exact (hc (by simp)).elim
+  congr 1
+  apply List.map_congr_left
+  intro i hi
+  have hi := List.mem_range.mp hi
+  rw [cp_applySlice_getD _ _ _ _ (by omega), cp_applySlice_getD _ _ _ _ (by omega), cp_applySlice_getD _ _ _ _ (by omega),
+    cp_applySlice_getD _ _ _ _ (by omega), cp_applySlice_getD _ _ _ _ (by omega), cp_applySlice_getD _ _ _ _ (by omega)]
+  rfl
+
+theorem cp_tiles_cpRowAt (P T R D : List Int) (s k : Nat) : tiles ((List.range' s k).map (cpRowAt P T R D)) := by
+  induction k generalizing s with
+  | zero => simp [tiles]
+  | succ k ih =>
+    cases k with
+    | zero => simp [tiles]
+    | succ k =>
+      have := ih (s + 1)
+      rw [List.range'_succ, List.range'_succ, List.map_cons, List.map_cons, tiles]
+      rw [List.range'_succ, List.map_cons] at this
+      exact ⟨rfl, rfl, this⟩
+
+/-- the facts about the four source arrays from which well-formedness follows. -/
+structure CpGood (P T R D : List Int) (n : Nat) (bd : Int) (m : Nat) : Prop where
+  lenP : P.length = m
+  lenT : T.length = m
+  lenD : D.length = m
+  lenR : R.length = m - 1
+  pt : ∀ i, i < m → P.getD i 0 < T.getD i 0
+  tp : ∀ i, i + 1 < m → T.getD i 0 < P.getD (i + 1) 0
+  dec : ∀ i, i < m → P.getD i 0 ≤ D.getD i 0 ∧ D.getD i 0 ≤ T.getD i 0
+  ris : ∀ i, i + 1 < m → T.getD i 0 ≤ R.getD i 0 ∧ R.getD i 0 ≤ P.getD (i + 1) 0
+  bnd : ∀ i, i < m → bd < T.getD i 0 ∧ T.getD i 0 < (n : Int) - bd
+  nn : ∀ i, i < m → 0 ≤ P.getD i 0
+
+theorem CpGood.wellFormed {P T R D : List Int} {n : Nat} {bd : Int} {m : Nat} (g : CpGood P T R D n bd m) :
+    wellFormed ((List.range (m - 1)).map (cpRowAt P T R D)) n bd := by
+  refine ⟨?_, ?_⟩
+  · intro r hr
+    obtain ⟨i, hi, rfl⟩ := List.mem_map.mp hr
+    have hi := List.mem_range.mp hi
+    have h1 := g.pt i (by omega); have h2 := g.pt (i + 1) (by omega); have h3 := g.tp i (by omega)
+    have h4 := g.dec i (by omega); have h5 := g.dec (i + 1) (by omega); have h6 := g.ris i (by omega)
+    have h7 := g.bnd i (by omega); have h8 := g.bnd (i + 1) (by omega); have h9 := g.nn i (by omega)
+    simp only [SampleRow.ordered, cpRowAt]
+    omega
+  · rw [List.range_eq_range']
+    exact cp_tiles_cpRowAt P T R D 0 (m - 1)
+
+
+/-! ## (3) flank midpoints lie between their extrema -/
+
+theorem cp_mem_crossingsAux_lt (pos : List Bool) (i0 x : Nat) (h : x ∈ crossingsAux pos i0) :
+    x + 1 < i0 + pos.length := by
+  induction pos generalizing i0 with
+  | nil => simp [crossingsAux] at h
+  | cons a l ih =>
+    cases l with
+    | nil => simp [crossingsAux] at h
+    | cons c rest =>
+      unfold crossingsAux at h
+      have ih' := ih (i0 + 1)
+      simp only [List.length_cons] at ih' ⊢
+      split at h
+      · rcases List.mem_cons.mp h with h | h
+        · omega
+        · have := ih' h; omega
+      · have := ih' h; omega
+
+theorem cp_getD_lt (xs : List Nat) (n k : Nat) (hn : 0 < n) (h : ∀ x ∈ xs, x < n) : xs.getD k 0 < n := by
+  rw [List.getD_eq_getElem?_getD]
+  cases hk : xs[k]? with
+  | none => simpa using hn
+  | some v => exact h v (List.mem_of_getElem? hk)
+
+theorem cp_medianFloor_lt (xs : List Nat) (n : Nat) (hn : 0 < n) (h : ∀ x ∈ xs, x < n) : medianFloor xs < n := by
+  unfold medianFloor
+  have h1 := cp_getD_lt xs n ((xs.length - 1) / 2) hn h
+  have h2 := cp_getD_lt xs n (xs.length / 2) hn h
+  simp only
+  omega
+
+theorem cp_flankMid_lt (seg : List Rat) (f : Flank) (hne : seg ≠ []) : flankMid seg f < seg.length := by
+  have hpos : 0 < seg.length := List.length_pos_iff.mpr hne
+  have hhalf : seg.length / 2 < seg.length := by omega
+  have key : ∀ x ∈ findFlankZerox seg f ((seg.headD 0 + seg.getLastD 0) / 2), x < seg.length := by
+    intro x hx
+    unfold findFlankZerox at hx
+    simp only at hx
+    split at hx
+    · simp at hx; omega
+    · have := cp_mem_crossingsAux_lt _ _ _ hx
+      simp at this; omega
+  have hm := cp_medianFloor_lt _ _ hpos key
+  unfold flankMid
+  simp only
+  repeat' split
+  all_goals first
+    | exact hhalf
+    | exact hm
+
+theorem cp_mapM_ok {α β : Type} (f : α → Except Err β) (l : List α) (v : List β) (h : l.mapM f = .ok v) :
+    v.length = l.length ∧ ∀ i (hi : i < l.length), ∃ y, v[i]? = some y ∧ f l[i] = .ok y := by
+  induction l generalizing v with
+  | nil =>
+    simp only [List.mapM_nil] at h
+    cases h
+    simp
+  | cons a l ih =>
+    rw [List.mapM_cons] at h
+    cases hfa : f a with
+    | error e => rw [hfa] at h; cases h
+    | ok y =>
+      cases hl : l.mapM f with
+      | error e => rw [hfa, hl] at h; cases h
+      | ok ys =>
+        rw [hfa, hl] at h
+        cases h
+        obtain ⟨h1, h2⟩ := ih ys hl
+        refine ⟨by simp [h1], ?_⟩
+        intro i hi
+        cases i with
+        | zero => exact ⟨y, by simp, by simpa using hfa⟩
+        | succ i =>
+          obtain ⟨z, hz1, hz2⟩ := h2 i (by simpa using hi)
+          exact ⟨z, by simpa using hz1, by simpa using hz2⟩
+
+theorem cp_mapM_succeeds {α β : Type} (f : α → Except Err β) (l : List α) (h : ∀ a ∈ l, ∃ y, f a = .ok y) :
+    ∃ v, l.mapM f = .ok v := by
+  induction l with
+  | nil => exact ⟨[], rfl⟩
+  | cons a l ih =>
+    obtain ⟨y, hy⟩ := h a (by simp)
+    obtain ⟨ys, hys⟩ := ih (fun a ha => h a (by simp [ha]))
+    exact ⟨y :: ys, by rw [List.mapM_cons, hy, hys]; rfl⟩
+
+/-- one iteration of the loop of `_find_flank_midpoints`. -/
+def cpFfmStep (sig : List Rat) (f : Flank) (starts ends : List Nat) (bias : Nat) (i : Nat) : Except Err Nat := do
+  let s ← idx? starts i
+  let e ← idx? ends (i + bias)
+  let seg := slice sig s (e + Slots.flankWindowPlus)
+  if seg.isEmpty then .error .indexError else .ok (s + flankMid seg f)
+
+theorem cp_ffm_def (sig : List Rat) (f : Flank) (k : Nat) (starts ends : List Nat) (bias : Nat) :
+    findFlankMidpoints sig f k starts ends bias = (List.range k).mapM (cpFfmStep sig f starts ends bias) := rfl
+
+theorem cp_slice_length (sig : List Rat) (a b : Nat) : (slice sig a b).length = min b sig.length - a := by
+  simp [slice]
+
+theorem cp_ffmStep_ok (sig : List Rat) (f : Flank) (starts ends : List Nat) (bias i y : Nat)
+    (h : cpFfmStep sig f starts ends bias i = .ok y) :
+    starts.getD i 0 ≤ y ∧ y ≤ ends.getD (i + bias) 0 := by
+  unfold cpFfmStep idx? at h
+  cases hs : starts[i]? with
+  | none => rw [hs] at h; cases h
+  | some s =>
+    cases he : ends[i + bias]? with
+    | none => rw [hs, he] at h; cases h
+    | some e =>
+      rw [hs, he] at h
+      simp only [List.getD_eq_getElem?_getD, hs, he, Option.getD_some]
+      change (if (slice sig s (e + Slots.flankWindowPlus)).isEmpty = true then Except.error Err.indexError
+        else Except.ok (s + flankMid (slice sig s (e + Slots.flankWindowPlus)) f)) = Except.ok y at h
+      split at h
+      · cases h
+      · rename_i hne
+        cases h
+        have hne' : slice sig s (e + Slots.flankWindowPlus) ≠ [] := by simpa using hne
+        have h1 := cp_flankMid_lt _ f hne'
+        rw [cp_slice_length] at h1
+        simp only [Slots.flankWindowPlus] at h1 ⊢
+        omega
+
+theorem cp_ffmStep_succeeds (sig : List Rat) (f : Flank) (starts ends : List Nat) (bias i : Nat)
+    (h1 : i < starts.length) (h2 : i + bias < ends.length) (h3 : starts.getD i 0 < sig.length)
+    (h4 : starts.getD i 0 ≤ ends.getD (i + bias) 0) :
+    ∃ y, cpFfmStep sig f starts ends bias i = .ok y := by
+  unfold cpFfmStep idx?
+  have hs : starts[i]? = some starts[i] := List.getElem?_eq_getElem h1
+  have he : ends[i + bias]? = some ends[i + bias] := List.getElem?_eq_getElem h2
+  simp only [List.getD_eq_getElem?_getD, hs, he, Option.getD_some] at h3 h4
+  rw [hs, he]
+  change ∃ y, (if (slice sig starts[i] (ends[i + bias] + Slots.flankWindowPlus)).isEmpty = true then Except.error Err.indexError
+        else Except.ok (starts[i] + flankMid (slice sig starts[i] (ends[i + bias] + Slots.flankWindowPlus)) f)) = Except.ok y
+  have hl := cp_slice_length sig starts[i] (ends[i + bias] + Slots.flankWindowPlus)
+  have hne : (slice sig starts[i] (ends[i + bias] + Slots.flankWindowPlus)).isEmpty = false := by
+    cases hx : slice sig starts[i] (ends[i + bias] + Slots.flankWindowPlus) with
+    | nil => rw [hx] at hl; simp [Slots.flankWindowPlus] at hl; omega
+    | cons _ _ => rfl
+  rw [hne]
+  exact ⟨_, rfl⟩
+
+theorem cp_getD_of_getElem? {α : Type} (l : List α) (i : Nat) (d y : α) (h : l[i]? = some y) : l.getD i d = y := by
+  simp [List.getD_eq_getElem?_getD, h]
+
+theorem cp_ffm_ok (sig : List Rat) (f : Flank) (k : Nat) (starts ends : List Nat) (bias : Nat) (l : List Nat)
+    (h : findFlankMidpoints sig f k starts ends bias = .ok l) :
+    l.length = k ∧ ∀ i, i < k → starts.getD i 0 ≤ l.getD i 0 ∧ l.getD i 0 ≤ ends.getD (i + bias) 0 := by
+  rw [cp_ffm_def] at h
+  obtain ⟨h1, h2⟩ := cp_mapM_ok _ _ _ h
+  refine ⟨by simpa using h1, ?_⟩
+  intro i hi
+  obtain ⟨y, hy1, hy2⟩ := h2 i (by simpa using hi)
+  rw [List.getElem_range] at hy2
+  rw [cp_getD_of_getElem? l i 0 y hy1]
+  exact cp_ffmStep_ok _ _ _ _ _ _ _ hy2
+
+theorem cp_ffm_succeeds (sig : List Rat) (f : Flank) (k : Nat) (starts ends : List Nat) (bias : Nat)
+    (h : ∀ i, i < k → i < starts.length ∧ i + bias < ends.length ∧ starts.getD i 0 < sig.length ∧
+      starts.getD i 0 ≤ ends.getD (i + bias) 0) :
+    ∃ l, findFlankMidpoints sig f k starts ends bias = .ok l := by
+  rw [cp_ffm_def]
+  apply cp_mapM_succeeds
+  intro i hi
+  obtain ⟨h1, h2, h3, h4⟩ := h i (List.mem_range.mp hi)
+  exact cp_ffmStep_succeeds _ _ _ _ _ _ h1 h2 h3 h4
+
+
+/-! ## `find_zerox` on a peak-first alternating pair of lists -/
+
+theorem cp_findZerox_cons (sig : List Rat) (p0 t0 : Nat) (ps ts : List Nat) (h : p0 < t0) :
+    findZerox sig (p0 :: ps) (t0 :: ts) =
+      (findFlankMidpoints sig .rise ps.length (t0 :: ts) (p0 :: ps) 1 >>= fun rises =>
+        findFlankMidpoints sig .decay (ts.length + 1) (p0 :: ps) (t0 :: ts) 0 >>= fun decays =>
+          Except.ok (rises, decays)) := by
+  unfold findZerox
+  have e1 : idx? (p0 :: ps) 0 = .ok p0 := rfl
+  have e2 : idx? (t0 :: ts) 0 = .ok t0 := rfl
+  rw [e1, e2]
+  have okb : ∀ {α β : Type} (a : α) (g : α → Except Err β), (Except.ok a >>= g) = g a := fun _ _ => rfl
+  simp only [okb, h, decide_true, if_true, List.length_cons, Nat.add_sub_cancel, Nat.sub_zero]
+
+theorem cp_findZerox_ok (sig : List Rat) (pk tr R D : List Nat) (m : Nat) (hp : pk.length = m) (ht : tr.length = m)
+    (h0 : 0 < m → pk.getD 0 0 < tr.getD 0 0) (h : findZerox sig pk tr = .ok (R, D)) :
+    R.length = m - 1 ∧ D.length = m ∧
+    (∀ i, i + 1 < m → tr.getD i 0 ≤ R.getD i 0 ∧ R.getD i 0 ≤ pk.getD (i + 1) 0) ∧
+    (∀ i, i < m → pk.getD i 0 ≤ D.getD i 0 ∧ D.getD i 0 ≤ tr.getD i 0) := by
+  cases pk with
+  | nil => cases h
+  | cons p0 ps =>
+    cases tr with
+    | nil => cases h
+    | cons t0 ts =>
+      have hlt : p0 < t0 := by simpa using h0 (by simp at hp; omega)
+      rw [cp_findZerox_cons sig p0 t0 ps ts hlt] at h
+      cases hR : findFlankMidpoints sig .rise ps.length (t0 :: ts) (p0 :: ps) 1 with
+      | error e => rw [hR] at h; cases h
+      | ok R' =>
+        cases hD : findFlankMidpoints sig .decay (ts.length + 1) (p0 :: ps) (t0 :: ts) 0 with
+        | error e => rw [hR, hD] at h; cases h
+        | ok D' =>
+          rw [hR, hD] at h
+          cases h
+          obtain ⟨r1, r2⟩ := cp_ffm_ok _ _ _ _ _ _ _ hR
+          obtain ⟨d1, d2⟩ := cp_ffm_ok _ _ _ _ _ _ _ hD
+          simp only [List.length_cons] at hp ht
+          refine ⟨by omega, by omega, ?_, ?_⟩
+          · intro i hi; exact r2 i (by omega)
+          · intro i hi; exact d2 i (by omega)
+
+theorem cp_findZerox_succeeds (sig : List Rat) (pk tr : List Nat) (m : Nat) (hm : 0 < m)
+    (hp : pk.length = m) (ht : tr.length = m)
+    (c1 : ∀ i, i < m → pk.getD i 0 < tr.getD i 0)
+    (c2 : ∀ i, i + 1 < m → tr.getD i 0 < pk.getD (i + 1) 0)
+    (c3 : ∀ i, i < m → tr.getD i 0 < sig.length) :
+    ∃ R D, findZerox sig pk tr = .ok (R, D) := by
+  cases pk with
+  | nil => simp at hp; omega
+  | cons p0 ps =>
+    cases tr with
+    | nil => simp at ht; omega
+    | cons t0 ts =>
+      have hlt : p0 < t0 := by simpa using c1 0 hm
+      simp only [List.length_cons] at hp ht
+      rw [cp_findZerox_cons sig p0 t0 ps ts hlt]
+      obtain ⟨R, hR⟩ := cp_ffm_succeeds sig .rise ps.length (t0 :: ts) (p0 :: ps) 1 (by
+        intro i hi
+        have := c2 i (by omega); have := c3 i (by omega)
+        refine ⟨by simp only [List.length_cons]; omega, by simp only [List.length_cons]; omega, by omega, by omega⟩)
+      obtain ⟨D, hD⟩ := cp_ffm_succeeds sig .decay (ts.length + 1) (p0 :: ps) (t0 :: ts) 0 (by
+        intro i hi
+        have := c1 i (by omega); have := c3 i (by omega)
+        simp only [Nat.add_zero]
+        refine ⟨by simp only [List.length_cons]; omega, by simp only [List.length_cons]; omega, by omega, by omega⟩)
+      exact ⟨R, D, by rw [hR, hD]; rfl⟩
+
+/-! ## `toNatList` -/
+
+theorem cp_toNatList_ok (l : List Int) (v : List Nat) (h : toNatList l = .ok v) : l = v.map Int.ofNat := by
+  induction l generalizing v with
+  | nil =>
+    unfold toNatList at h
+    simp only [List.mapM_nil] at h
+    cases h; rfl
+  | cons x xs ih =>
+    unfold toNatList at h
+    rw [List.mapM_cons] at h
+    by_cases hx : x < 0
+    · simp only [hx, if_true] at h; cases h
+    · simp only [hx, if_false] at h
+      cases hl : toNatList xs with
+      | error e => unfold toNatList at hl; rw [hl] at h; cases h
+      | ok ys =>
+        have := ih ys hl
+        unfold toNatList at hl; rw [hl] at h
+        cases h
+        simp only [List.map_cons, ← this]
+        congr 1
+        show x = ((x.toNat : Nat) : Int)
+        omega
+
+theorem cp_toNatList_succeeds (l : List Int) (h : ∀ x ∈ l, 0 ≤ x) : ∃ v, toNatList l = .ok v := by
+  unfold toNatList
+  apply cp_mapM_succeeds
+  intro a ha
+  have := h a ha
+  exact ⟨a.toNat, by rw [if_neg (by omega)]⟩
+
+theorem cp_getD_map_ofNat (l : List Nat) (i : Nat) : (l.map Int.ofNat).getD i 0 = ((l.getD i 0 : Nat) : Int) := by
+  simp only [List.getD_eq_getElem?_getD, List.getElem?_map]
+  cases l[i]? <;> rfl
+
+/-! ## the chain `p₀ < t₀ < p₁ < t₁ < …` -/
+
+theorem cp_altFrom_pair (lo : Option Int) (p t : Int) (ps ts : List Int) :
+    altFrom true lo (p :: ps) (t :: ts) =
+      ((match lo with | some l => decide (l < p) | none => true) && (decide (p < t) && altFrom true (some t) ps ts)) := by
+  cases lo <;> simp [altFrom]
+
+theorem cp_chain (P T : List Int) (lo : Option Int) (hl : P.length = T.length) (h : altFrom true lo P T = true) :
+    (∀ i, i < P.length → P.getD i 0 < T.getD i 0) ∧
+    (∀ i, i + 1 < P.length → T.getD i 0 < P.getD (i + 1) 0) ∧
+    (∀ l, lo = some l → 0 < P.length → l < P.getD 0 0) := by
+  induction P generalizing T lo with
+  | nil => simp
+  | cons p ps ih =>
+    cases T with
+    | nil => simp at hl
+    | cons t ts =>
+      rw [cp_altFrom_pair] at h
+      simp only [Bool.and_eq_true, decide_eq_true_eq] at h
+      obtain ⟨h1, h2, h3⟩ := h
+      obtain ⟨a, b, c⟩ := ih ts (some t) (by simpa using hl) h3
+      refine ⟨?_, ?_, ?_⟩
+      · intro i hi
+        cases i with
+        | zero => simpa using h2
+        | succ j => simpa using a j (by simpa using hi)
+      · intro i hi
+        cases i with
+        | zero => simpa using c t rfl (by simpa using hi)
+        | succ j => simpa using b j (by simpa using hi)
+      · intro l hlo _
+        subst hlo
+        simpa using h1
+
+theorem cp_chain_nat (pk tr : List Nat) (hl : pk.length = tr.length)
+    (h : altFrom true none (pk.map Int.ofNat) (tr.map Int.ofNat) = true) :
+    (∀ i, i < pk.length → pk.getD i 0 < tr.getD i 0) ∧
+    (∀ i, i + 1 < pk.length → tr.getD i 0 < pk.getD (i + 1) 0) := by
+  obtain ⟨c1, c2, _⟩ := cp_chain _ _ none (by simpa using hl) h
+  simp only [List.length_map, cp_getD_map_ofNat] at c1 c2
+  exact ⟨fun i hi => by have := c1 i hi; omega, fun i hi => by have := c2 i hi; omega⟩
+
+/-! ## gluing the stages of `compute_cyclepoints` -/
+
+theorem cp_okb {α β : Type} (a : α) (g : α → Except Err β) : (Except.ok a >>= g) = g a := rfl
+
+theorem cp_compute_eq (sig : List Rat) (pad : Nat) (b : List Bool) (bd : Int) (P T : List Int) (pk tr R D : List Nat)
+    (h1 : findExtrema sig pad b bd .peak = .ok (P, T)) (h2 : toNatList P = .ok pk) (h3 : toNatList T = .ok tr)
+    (h4 : findZerox sig pk tr = .ok (R, D)) :
+    computeCyclepoints sig pad b bd = assembleRows P T (R.map Int.ofNat) (D.map Int.ofNat) := by
+  unfold computeCyclepoints
+  simp only [h1, cp_okb, h2, h3, h4]
+
+theorem cp_extract (sig : List Rat) (pad : Nat) (b : List Bool) (bd : Int) (rows : List SampleRow)
+    (h : computeCyclepoints sig pad b bd = .ok rows) :
+    ∃ P T pk tr R D, findExtrema sig pad b bd .peak = .ok (P, T) ∧ toNatList P = .ok pk ∧ toNatList T = .ok tr ∧
+      findZerox sig pk tr = .ok (R, D) ∧ assembleRows P T (R.map Int.ofNat) (D.map Int.ofNat) = .ok rows := by
+  cases h1 : findExtrema sig pad b bd .peak with
+  | error e => unfold computeCyclepoints at h; rw [h1] at h; cases h
+  | ok v =>
+    obtain ⟨P, T⟩ := v
+    cases h2 : toNatList P with
+    | error e => unfold computeCyclepoints at h; simp only [h1, cp_okb, h2] at h; cases h
+    | ok pk =>
+      cases h3 : toNatList T with
+      | error e => unfold computeCyclepoints at h; simp only [h1, cp_okb, h2, h3] at h; cases h
+      | ok tr =>
+        cases h4 : findZerox sig pk tr with
+        | error e => unfold computeCyclepoints at h; simp only [h1, cp_okb, h2, h3, h4] at h; cases h
+        | ok w =>
+          obtain ⟨R, D⟩ := w
+          rw [cp_compute_eq sig pad b bd P T pk tr R D h1 h2 h3 h4] at h
+          exact ⟨P, T, pk, tr, R, D, by first | rfl | exact h1, by first | rfl | exact h2, by first | rfl | exact h3, h4, h⟩
+
+theorem cp_spec_props (sig : List Rat) (pad : Nat) (b : List Bool) (bd : Int) (P T : List Int)
+    (hlen : b.length = sig.length + 2 * pad)
+    (hs : findExtremaSpec sig pad b bd .peak = .ok (P, T)) :
+    altFrom true none P T = true ∧ P.length = T.length ∧
+    (∀ x ∈ P, bd < x ∧ x < (sig.length : Int) - bd) ∧ (∀ x ∈ T, bd < x ∧ x < (sig.length : Int) - bd) := by
+  have hl : (List.replicate pad (0 : Rat) ++ sig ++ List.replicate pad 0).length = b.length := by
+    simp; omega
+  have sa := boundary_alternating _ _ pad sig.length bd (spec_alternating _ b hl)
+  obtain ⟨h1, h2, h3, h4⟩ := trimSpec_peak_props _ _ P T sa hs
+  refine ⟨h1, h2, ?_, ?_⟩
+  · intro x hx
+    obtain ⟨y, _, _, hy⟩ := (mem_boundarySpec _ _ _ _ _).mp (h3.subset hx)
+    exact hy
+  · intro x hx
+    obtain ⟨y, _, _, hy⟩ := (mem_boundarySpec _ _ _ _ _).mp (h4.subset hx)
+    exact hy
+
+theorem cp_getD_mem {α : Type} (l : List α) (i : Nat) (d : α) (hi : i < l.length) : l.getD i d ∈ l := by
+  rw [List.getD_eq_getElem?_getD, List.getElem?_eq_getElem hi]; exact List.getElem_mem _
+
+theorem cp_good (sig : List Rat) (bd : Int) (pk tr R D : List Nat)
+    (alt : altFrom true none (pk.map Int.ofNat) (tr.map Int.ofNat) = true) (hl : pk.length = tr.length)
+    (hb : ∀ x ∈ tr.map Int.ofNat, bd < x ∧ x < (sig.length : Int) - bd)
+    (hz : findZerox sig pk tr = .ok (R, D)) :
+    CpGood (pk.map Int.ofNat) (tr.map Int.ofNat) (R.map Int.ofNat) (D.map Int.ofNat) sig.length bd pk.length := by
+  obtain ⟨c1, c2⟩ := cp_chain_nat pk tr hl alt
+  obtain ⟨z1, z2, z3, z4⟩ := cp_findZerox_ok sig pk tr R D pk.length rfl hl.symm (fun h => c1 0 h) hz
+  refine ⟨by simp, by simp [hl], by simp [z2], by simp [z1], ?_, ?_, ?_, ?_, ?_, ?_⟩
+  · intro i hi; have := c1 i hi; simp only [cp_getD_map_ofNat]; omega
+  · intro i hi; have := c2 i hi; simp only [cp_getD_map_ofNat]; omega
+  · intro i hi; have := z4 i hi; simp only [cp_getD_map_ofNat]; omega
+  · intro i hi; have := z3 i hi; simp only [cp_getD_map_ofNat]; omega
+  · intro i hi; exact hb _ (cp_getD_mem _ _ _ (by simp; omega))
+  · intro i hi; simp only [cp_getD_map_ofNat]; omega
+
+/-- everything known about a successful run with both kinds of crossing. -/
+theorem cp_main (sig : List Rat) (pad : Nat) (b : List Bool) (bd : Int) (P T : List Int) (rows : List SampleRow)
+    (hlen : b.length = sig.length + 2 * pad) (hr : risingX b ≠ []) (hd : decayingX b ≠ [])
+    (hs : findExtremaSpec sig pad b bd .peak = .ok (P, T))
+    (h : computeCyclepoints sig pad b bd = .ok rows) :
+    ∃ R D, CpGood P T R D sig.length bd P.length ∧ rows = (List.range (P.length - 1)).map (cpRowAt P T R D) := by
+  obtain ⟨P', T', pk, tr, R, D, h1, h2, h3, h4, h5⟩ := cp_extract sig pad b bd rows h
+  rw [findExtrema_eq_spec _ _ _ _ _ hlen hr hd, hs] at h1
+  cases h1
+  obtain ⟨a1, a2, _, a4⟩ := cp_spec_props sig pad b bd P T hlen hs
+  have eP := cp_toNatList_ok P pk h2
+  have eT := cp_toNatList_ok T tr h3
+  subst eP eT
+  have g := cp_good sig bd pk tr R D a1 (by simpa using a2) a4 h4
+  simp only [List.length_map]
+  refine ⟨_, _, g, ?_⟩
+  rw [cp_assembleRows_eq _ _ _ _ pk.length g.lenP g.lenT g.lenD g.lenR] at h5
+  cases h5
+  rfl
 
 /-- whenever a table is returned it is ordered, inside the signal, beyond the boundary, and tiles. -/
 theorem computeCyclepoints_wellFormed (sig : List Rat) (pad : Nat) (b : List Bool) (bd : Int) (rows : List SampleRow)
     (hlen : b.length = sig.length + 2 * pad)
     (h : computeCyclepoints sig pad b bd = .ok rows) : wellFormed rows sig.length bd := by
-  sorry
+  by_cases hdeg : risingX b = [] ∨ decayingX b = []
+  · obtain ⟨e, he⟩ := computeCyclepoints_degenerate sig pad b bd hdeg
+    rw [he] at h; cases h
+  · have hr : risingX b ≠ [] := fun h' => hdeg (Or.inl h')
+    have hd : decayingX b ≠ [] := fun h' => hdeg (Or.inr h')
+    obtain ⟨P, T, pk, tr, R, D, h1, _⟩ := cp_extract sig pad b bd rows h
+    rw [findExtrema_eq_spec _ _ _ _ _ hlen hr hd] at h1
+    obtain ⟨R', D', g, rfl⟩ := cp_main sig pad b bd P T rows hlen hr hd h1 h
+    exact g.wellFormed
 
 /-- totality: with at least two kept peaks a table with one row per cycle is returned. -/
 theorem computeCyclepoints_total (sig : List Rat) (pad : Nat) (b : List Bool) (bd : Int) (P T : List Int)
     (hlen : b.length = sig.length + 2 * pad) (hr : risingX b ≠ []) (hd : decayingX b ≠ []) (hbd : 0 ≤ bd)
     (hs : findExtremaSpec sig pad b bd .peak = .ok (P, T)) (h2 : 2 ≤ P.length) :
     ∃ rows, computeCyclepoints sig pad b bd = .ok rows ∧ rows.length = P.length - 1 := by
-  sorry
+  have h1 : findExtrema sig pad b bd .peak = .ok (P, T) := by
+    rw [findExtrema_eq_spec _ _ _ _ _ hlen hr hd, hs]
+  obtain ⟨a1, a2, a3, a4⟩ := cp_spec_props sig pad b bd P T hlen hs
+  obtain ⟨pk, hpk⟩ := cp_toNatList_succeeds P (fun x hx => by have := a3 x hx; omega)
+  obtain ⟨tr, htr⟩ := cp_toNatList_succeeds T (fun x hx => by have := a4 x hx; omega)
+  have eP := cp_toNatList_ok P pk hpk
+  have eT := cp_toNatList_ok T tr htr
+  subst eP eT
+  simp only [List.length_map] at a2 h2 ⊢
+  obtain ⟨c1, c2⟩ := cp_chain_nat pk tr a2 a1
+  have c3 : ∀ i, i < pk.length → tr.getD i 0 < sig.length := by
+    intro i hi
+    have := a4 _ (cp_getD_mem (tr.map Int.ofNat) i 0 (by simp; omega))
+    rw [cp_getD_map_ofNat] at this
+    omega
+  obtain ⟨R, D, hz⟩ := cp_findZerox_succeeds sig pk tr pk.length (by omega) rfl a2.symm c1 c2 c3
+  have g := cp_good sig bd pk tr R D a1 a2 a4 hz
+  rw [cp_compute_eq sig pad b bd _ _ pk tr R D h1 hpk htr hz,
+    cp_assembleRows_eq _ _ _ _ pk.length g.lenP g.lenT g.lenD g.lenR]
+  exact ⟨_, rfl, by simp⟩
 
 /-- row `i` is centred on peak `i+1` and runs from trough `i` to trough `i+1`. -/
 theorem computeCyclepoints_rows (sig : List Rat) (pad : Nat) (b : List Bool) (bd : Int) (P T : List Int)
@@ -31,6 +651,16 @@ theorem computeCyclepoints_rows (sig : List Rat) (pad : Nat) (b : List Bool) (bd
     (hs : findExtremaSpec sig pad b bd .peak = .ok (P, T))
     (h : computeCyclepoints sig pad b bd = .ok rows) (i : Nat) (hi : i < rows.length) :
     ∃ r, rows[i]? = some r ∧ P[i + 1]? = some r.peak ∧ T[i]? = some r.lastTrough ∧ T[i + 1]? = some r.nextTrough := by
-  sorry
+  obtain ⟨R, D, g, rfl⟩ := cp_main sig pad b bd P T rows hlen hr hd hs h
+  simp only [List.length_map, List.length_range] at hi
+  have hP := g.lenP
+  have hT := g.lenT
+  refine ⟨cpRowAt P T R D i, by simp [hi], ?_, ?_, ?_⟩
+  · simp only [cpRowAt, List.getD_eq_getElem?_getD]
+    rw [List.getElem?_eq_getElem (by omega)]; rfl
+  · simp only [cpRowAt, List.getD_eq_getElem?_getD]
+    rw [List.getElem?_eq_getElem (by omega)]; rfl
+  · simp only [cpRowAt, List.getD_eq_getElem?_getD]
+    rw [List.getElem?_eq_getElem (by omega)]; rfl
 
 end Bycycle
